@@ -12,7 +12,7 @@ import (
 
 // C03 - the client gets a valid response in its own protocol with exactly one outcome.
 
-const ruleC03 = "rapid draws compliant backend scripts (OK with k messages; error after k messages; trailers-only; bare HTTP status with arbitrary body; mixed per-frame compression; declared Content-Length or none; both trailer styles) and client requests that make the transcoder itself fail at each stage (unknown codec/compression, bad timeout, bad envelope flag, cut body, undecodable message, over the size limit, backend replying in the wrong codec). Rejected requests may meet a full-duplex handler that has already written its answer (or its first frame) when it reads the request, and carries on; trailing metadata may exceed the message limit. Oracle: strict per-form validator of status, content-type, compression headers vs flags vs bytes, envelopes, Content-Length, and exactly one terminal disposition in the place the client protocol defines. Non-trivial = the response was produced by a conversion or by a transcoder-generated error; distinct by hash(client form, backend triple, response kind, frame flags, content-length mode, reject class)."
+const ruleC03 = "rapid draws compliant backend scripts (OK with k messages; error after k messages; trailers-only; bare HTTP status with arbitrary body; mixed per-frame compression; declared Content-Length or none; both trailer styles) and client requests that make the transcoder itself fail at each stage (unknown codec/compression, bad timeout, bad envelope flag, cut body, undecodable message, over the size limit, backend replying in the wrong codec). Rejected requests may meet a full-duplex handler that has already written its answer (or its first frame) when it reads the request, and carries on; trailing metadata may exceed the message limit; a third of the handlers put the response headers of their own protocol (content type, encodings) into the header map before they read the request, as connect-go and grpc-go do. Oracle: strict per-form validator of status, content-type, compression headers vs flags vs bytes, envelopes, Content-Length, and exactly one terminal disposition in the place the client protocol defines. Non-trivial = the response was produced by a conversion or by a transcoder-generated error; distinct by hash(client form, backend triple, response kind, frame flags, content-length mode, reject class)."
 
 func init() { registerScenarioProp("C03", ruleC03, checkC03) }
 
